@@ -9,6 +9,8 @@ every output port and cycle, with the PyMTL simulation and the IR reference.
 The text must parse, define every instantiated module, and give every variable
 bit exactly one driver.
 """
+import os
+
 from vt import ir, irgen, exprfam, structfam, ifcfam, stmtfam, trcheck
 from vt.acc import Acc, MachineryError
 from vt.checks import c01
@@ -41,7 +43,41 @@ def work(tier):
   W += [("sp", name) for name, d in structfam.designs()]
   W += [("cls", name) for name in ifcfam.DESIGNS]
   W += [("st", name) for name in stmtfam.DESIGNS]
+  W += [("aftersim", name) for name in AFTER_SIM]
   return W
+
+
+AFTER_SIM = ("Counter", "ChildInBlock", "StructReg", "IfcInBlock", "cls:CompArray", "cls:FooTop", "cls:DownLoop", "cls:NestedIfcConn", "cls:PassThroughHier")
+
+
+def run_after_sim(key, backend, acc):
+  """translating a design that has already been simulated: refused, or the same text as a fresh instance gives"""
+  from pymtl3 import DefaultPassGroup
+  cls = ifcfam.DESIGNS[key[4:]] if key.startswith("cls:") else stmtfam.DESIGNS[key]
+  case = dict(kind="aftersim", design=key, backend=backend)
+  try:
+    fresh, _ = trcheck.translate(cls, backend)
+  except Exception:
+    acc.count("not_translatable"); return "skipped"
+  P = trcheck.backend_pass(backend)
+  m = cls(); m.elaborate(); m.apply(DefaultPassGroup()); m.sim_reset(); m.sim_tick()
+  acc.count("evaluations")
+  try:
+    m.set_metadata(P.enable, True)
+    m.apply(P())
+    fn = m.get_metadata(P.translated_filename)
+    with open(fn) as f: text = f.read()
+    os.remove(fn)
+  except (NameError, OSError):
+    raise
+  except Exception:
+    acc.count("after_sim_refused"); return "ok"
+  strip = lambda t: "\n".join(l for l in t.splitlines() if l.strip() and not l.strip().startswith("//"))
+  if strip(text) != strip(fresh):
+    acc.violation(f"{backend}:aftersim:different-text:{key}", case, "refused, or the text of a fresh instance", f"{len(strip(text).splitlines())} lines instead of {len(strip(fresh).splitlines())}",
+                  "translation of an instance that has been simulated")
+    return "violation"
+  return "ok"
 
 
 def shards(tier):
@@ -73,6 +109,8 @@ def run_one(kind, key, tier, acc, backend):
     return trcheck.check_class(key, ifcfam.DESIGNS[key], backend, acc, trcheck.class_vectors)
   if kind == "st":
     return run_stmt(key, backend, acc)
+  if kind == "aftersim":
+    return run_after_sim(key, backend, acc)
   if kind == "sp":
     d = dict(structfam.designs())[key]
     return trcheck.check_ir_design(key, d, backend, structfam.input_seqs(d), acc, backend)
@@ -105,6 +143,9 @@ def run_shard(shard, tier, seed, backend=None):
 
 def replay(case, backend=None):
   acc = Acc()
+  if case.get("kind") == "aftersim":
+    run_after_sim(case["design"], case.get("backend", backend or BACKEND), acc)
+    return [(v["sig"], v["expected"], v["observed"], v["msg"]) for v in acc.violations][:3]
   if case.get("kind") == "stmt":
     run_stmt(case["design"], case.get("backend", backend or BACKEND), acc)
     return [(v["sig"], v["expected"], v["observed"], v["msg"]) for v in acc.violations][:3]
